@@ -84,6 +84,30 @@ def handle (op : String) (a : Json) : Except String Json := do
     let tags := (used.zipIdx.map (fun (o, i) => stepTag (i + 1) o)).eraseDups
     let tags := tags ++ (if r.calls == maxExecutionCount + 1 then ["budget-exhausted"] else [])
     return ok (Json.mkObj [("res", resJson r.res), ("trace", arr (r.trace.map evJson)), ("calls", toJson r.calls)]) tags
+  | "store" =>
+    let rs ← getArr a "rnd"
+    let rnds ← rs.mapM (fun j => do let s ← j.getStr?; parseRat s)
+    let rnd : Nat → Rat := fun k => rnds.getD k 0
+    let stepsJ ← getArr a "steps"
+    let steps ← stepsJ.mapM (fun sj => do
+      let k ← sj.getObjValAs? String "k"
+      match k with
+      | "put" =>
+        let n ← getNat sj "n"
+        pure (StoreStep.put n)
+      | "flush" =>
+        let refresh ← getBool sj "refresh"
+        let bj ← getArr sj "bulk"
+        let rj ← getArr sj "refr"
+        let bulk ← bj.zipIdx.mapM (fun (j, i) => outcomeOf i j)
+        let refr ← rj.zipIdx.mapM (fun (j, i) => outcomeOf i j)
+        pure (StoreStep.flush refresh bulk refr)
+      | s => throw s!"unknown store step {s}")
+    let (st, results) := runStore rnd emptyStore steps
+    let resJ := results.map (fun r => Json.mkObj [
+      ("err", match r.err with | none => Json.null | some e => resJson e),
+      ("runs", arr (r.runs.map (fun run => arr (run.trace.map evJson))))])
+    return ok (Json.mkObj [("acked", toJson st.acked), ("buffer", toJson st.buffer), ("results", arr resJ)])
   | "pause" =>
     let k ← getNat a "k"
     let r ← getRat a "r"
